@@ -313,17 +313,6 @@ impl Model {
                         Item::Box { .. } | Item::Kern { .. } => {}
                         _ => return Err(format!("item {j} replaced by discretionary {i} is not box-like")),
                     }
-                    // One shape is left out of the domain: an EXPLICIT kern that ends the replaced range and is followed
-                    // by glue. TeX steps over it (the glue after it is a breakpoint, with the discretionary as prev_p);
-                    // the code under test visits the replaced nodes and breaks AT the kern instead (listed finding
-                    // C04-explicit-kern-ending-replaced-range-is-a-breakpoint, fixed reproducer in c04's `known` phase).
-                    // What follows from a break in the middle of another break's replaced range is not modelled.
-                    if j == i + replace
-                        && matches!(items[j], Item::Kern { explicit: true, .. })
-                        && matches!(items.get(j + 1), Some(Item::Glue { .. }))
-                    {
-                        return Err(format!("explicit kern {j} ends the range replaced by discretionary {i} and is followed by glue"));
-                    }
                     if in_replaced[j] {
                         return Err(format!("item {j} replaced twice"));
                     }
